@@ -260,6 +260,9 @@ def run_case(ctx, case):
                     setattr(ac, name, AC.SwingAngle(val))
                 else:
                     setattr(ac, name, val)
+                if _attr(ac, name) != val:
+                    # what the application assigned is what the attribute reads right afterwards (and what the next apply encodes)
+                    viol.append((f"setter-not-reflected/{name}", f"{name} assigned {val!r} reads {_attr(ac, name)!r} immediately afterwards", step))
                 if name != "beep":
                     fresh.add(name)
                     if name in ("breeze_away", "breeze_mild", "breezeless"):
